@@ -15,6 +15,7 @@ import (
 	"encoding/base64"
 	"fmt"
 	"strings"
+	"time"
 
 	sjson "go.starlark.net/lib/json"
 	smath "go.starlark.net/lib/math"
@@ -717,6 +718,15 @@ func (m *srcMode) StackMB(i int64) int {
 		return 64
 	}
 	return 0
+}
+
+// Timeout: the deep-nesting sources may need tens of seconds of CPU (growing the Go
+// stack); every other source is small and gets 8 s of CPU.
+func (m *srcMode) Timeout(i int64) time.Duration {
+	if strings.HasPrefix(m.decode(i).Cat, "nest:") {
+		return 0
+	}
+	return 8 * time.Second
 }
 
 func (m *srcMode) Dist(i int64) string { return strings.SplitN(m.decode(i).Cat, ":", 2)[0] }
